@@ -44,7 +44,7 @@ def churn_plan(spec, inst, rnd, member_p=0.4):
         L = [x for x, t in types.items() if a['leftAsset'] in anc(t)]
         R = [x for x, t in types.items() if a['rightAsset'] in anc(t)]
         both = [x for x in L if x in R]
-        if L and R:
+        if L and R and 0 not in (a['leftMultiplicity']['max'], a['rightMultiplicity']['max']):
             x = rnd.choice(both) if both and rnd.random() < 0.5 else rnd.choice(L)
             y = x if x in R and rnd.random() < 0.5 else rnd.choice(R)
             if (cls, x, y) not in seen:
@@ -57,7 +57,7 @@ def churn_plan(spec, inst, rnd, member_p=0.4):
         t = rnd.choice(concrete)
         big['assets'].append({'id': nid, 'name': f'churn{nid}', 'type': t, 'defenses': {}})
         for a in spec['associations']:
-            if a['leftAsset'] in anc(t) and rnd.random() < 0.5:
+            if a['leftAsset'] in anc(t) and rnd.random() < 0.5 and 0 not in (a['leftMultiplicity']['max'], a['rightMultiplicity']['max']):
                 R = [x for x, ty in types.items() if a['rightAsset'] in anc(ty)]
                 if R:
                     big['links'].append({'cls': assoc_class_name(spec, a), 'lf': a['leftField'], 'rf': a['rightField'], 'left': [nid], 'right': [rnd.choice(R)]})
